@@ -89,6 +89,15 @@ def _rand_c08(rng, tier, sc0):
             h = G.rand_history(rng, c2, rng.choice([3, 10, 40]), p_trigger=0.0, p_adv=0.0)
             h[0]["append"] = rng.random() < 0.6
             steps += h
+        if i % 10 == 9:
+            # a cleanup that fails at every rotation (a directory sits where the compressed file should go): the size
+            # criterion is not affected by it
+            c = {"naming": rng.choice(["Num", "NumD"]), "rot": True, "size": rng.choice([30, 60]), "mode": rng.choice(["direct", "buf"]),
+                 "cap": 64, "m": 3, "bg": False, "crlf": False}
+            first = "app_r00000.log.gz" if c["naming"] == "Num" else "app_r00000.log.gz"
+            steps = [{"op": "ExtCreate", "name": first, "dir": True, "content": ""}, {"op": "Start", "append": False}]
+            steps += [{"op": "Log", "len": rng.choice([9, 12, 21, 31, 40])} for _ in range(rng.choice([8, 14, 20]))]
+            steps.append({"op": "Stop"})
         out.append({"sc": sc0 + i, "cfg": c, "t0": 40000000, "steps": steps, "origin": "rand", "obs": "sync"})
     return out
 
